@@ -51,6 +51,7 @@ type Job struct {
 	Timeout time.Duration
 	Procs   int // GOMAXPROCS, 0 = default
 	Only    int // >=0: run just this case
+	NoInl   bool // run the build made with -gcflags=all=-l
 	// results
 	base     string
 	exit     int
@@ -64,6 +65,7 @@ type Plan struct {
 	Rule        string
 	Assumptions []string
 	Race        bool // needs the race build
+	NoInline    bool // thorough tier also needs a build without inlining
 	Exhaustive  func(tier string) bool
 	Jobs        func(tier string, seed int64) []Job
 	// Floors: minimal totals of counters; below → inconclusive ("observed nothing").
@@ -87,6 +89,7 @@ type Replay struct {
 	Sub      string          `json:"sub"`
 	Mode     string          `json:"mode"`
 	Race     bool            `json:"race,omitempty"`
+	NoInl    bool            `json:"noinline_build,omitempty"`
 	Seed     int64           `json:"seed"`
 	Tier     string          `json:"tier"`
 	Idx      int             `json:"idx"`
@@ -210,7 +213,7 @@ func main() {
 		}
 		var jobs []Job
 		if replay != nil {
-			jobs = []Job{{Sub: replay.Sub, Mode: replay.Mode, Race: replay.Race, From: replay.From, To: replay.To, Args: replay.Args, Env: replay.Env, Procs: replay.Procs, Only: replay.Idx, Timeout: 10 * time.Minute}}
+			jobs = []Job{{Sub: replay.Sub, Mode: replay.Mode, Race: replay.Race, NoInl: replay.NoInl, From: replay.From, To: replay.To, Args: replay.Args, Env: replay.Env, Procs: replay.Procs, Only: replay.Idx, Timeout: 10 * time.Minute}}
 		} else {
 			jobs = plan.Jobs(tier, seed)
 			for i := range jobs {
@@ -303,6 +306,20 @@ func buildVfh(plan *Plan, replay *Replay) error {
 			return err
 		}
 	}
+	if plan.NoInline && (tier == "thorough" || (replay != nil && replay.NoInl)) {
+		args := []string{"build", "-modfile=" + filepath.Join(buildDir, "go.mod"), "-tags", "verif", "-gcflags=all=-l", "-o", filepath.Join(buildDir, "vfh-noinl"), "./cmd/vfh"}
+		cmd := exec.Command("go", args...)
+		cmd.Dir = filepath.Join(verifDir, "harness")
+		cmd.Env = goEnv()
+		if out, err := cmd.CombinedOutput(); err != nil {
+			return fmt.Errorf("go build -gcflags=all=-l: %v\n%s", err, out)
+		}
+		link := filepath.Join(buildDir, "vfh-noinl.test")
+		os.Remove(link)
+		if err := os.Symlink("vfh-noinl", link); err != nil {
+			return err
+		}
+	}
 	return nil
 }
 
@@ -333,6 +350,9 @@ func runJob(j *Job) {
 	bin := "vfh"
 	if j.Race {
 		bin = "vfh-race"
+	}
+	if j.NoInl {
+		bin = "vfh-noinl"
 	}
 	var args []string
 	if j.Mode == "test" {
@@ -695,7 +715,7 @@ func report(plan *Plan, agg *Agg, findings []Finding, wall time.Duration, replay
 		path := filepath.Join(replayDir, fmt.Sprintf("%s-%d-%d.json", tier, seed, n))
 		r := Replay{Property: prop, Seed: seed, Tier: tier, Idx: v.Idx, Clause: v.Clause, Sig: s, Detail: v.Detail, Case: v.Case}
 		if v.job != nil {
-			r.Sub, r.Mode, r.Race, r.From, r.To, r.Args, r.Env, r.Procs = v.job.Sub, v.job.Mode, v.job.Race, v.job.From, v.job.To, v.job.Args, v.job.Env, v.job.Procs
+			r.Sub, r.Mode, r.Race, r.NoInl, r.From, r.To, r.Args, r.Env, r.Procs = v.job.Sub, v.job.Mode, v.job.Race, v.job.NoInl, v.job.From, v.job.To, v.job.Args, v.job.Env, v.job.Procs
 			if v.Clause == "crash" {
 				r.Stderr = tail(v.job.base+".stderr", 4000)
 			}
